@@ -5,12 +5,13 @@ From V.Harness Require Import Run.
 Import ListNotations.
 Open Scope Z_scope.
 
-(* event word: code + 4*flags + 32*data; code 1 = W, 2 = R, 3 = WR; flags = w_en + 2*r_en + 4*rst *)
+(* event word: code + 4*flags + 64*data; code 1 = W, 2 = R, 3 = WR;
+   flags = w_en + 2*r_en + 4*write-domain rst + 8*read-domain rst *)
 Definition dec_ev (x : Z) : ev * ain :=
   let c := x mod 4 in
-  let f := (x / 4) mod 8 in
+  let f := (x / 4) mod 16 in
   ((if c =? 1 then EW else if c =? 2 then ER else EWR),
-   mkIn (Z.odd f) (x / 32) (Z.odd (f / 2)) (Z.odd (f / 4))).
+   mkIn (Z.odd f) (x / 64) (Z.odd (f / 2)) (Z.odd (f / 4)) (Z.odd (f / 8))).
 
 (* observation after an event: w_rdy + 2*r_rdy + 4*r_rst + 8*(w_level + 64*(r_level + 64*r_data)) *)
 Definition pack (wrdy rrdy rrst : bool) (wl rl rd : Z) : Z :=
@@ -34,30 +35,34 @@ Fixpoint b_trace (n width : Z) (st : bfifo) (xs : list Z) : list Z :=
               let st' := buf_step n width st e i in b_obs n st' :: b_trace n width st' r
   end.
 
-Definition ctor (cls depth : Z) (exact : bool) : option Z :=
-  if cls =? 0 then async_ctor depth exact else async_buf_ctor depth exact.
+(* exception class codes shared with harness/props/c13.py: 1 ValueError, 2 TypeError, 3 IndexError *)
+Definition ctor (cls width depth : Z) (exact : bool) : ctor_res := ctor_full (negb (cls =? 0)) width depth exact.
 Definition elab_ok (cls d : Z) : bool := if cls =? 0 then async_elab_ok d else async_buf_elab_ok d.
 
 (* cls 0 = AsyncFIFO, 1 = AsyncFIFOBuffered.
-   [0] = constructor raised ValueError; [2; depth'] = elaboration raises; [1; depth'; obs...; verdict] where
-   verdict is the answer of the interface monitor (overflow / wrong r_data / level out of range): 0 by the theorems
-   of Props/C13.v *)
+   [0; c] = constructor raised class c; [2; depth'; 3] = elaboration raises IndexError;
+   [1; depth'; obs...; verdict] where verdict is the answer of the interface monitor (overflow / wrong r_data /
+   level out of range / not drained in time): 0 by the theorems of Props/C13.v *)
 Definition k_trace (cls depth width : Z) (exact : bool) (xs : list Z) : list Z :=
-  match ctor cls depth exact with
-  | None => [0]
-  | Some d =>
-      if negb (elab_ok cls d) then [2; d]
+  match ctor cls width depth exact with
+  | CtorValueError => [0; 1]
+  | CtorTypeError => [0; 2]
+  | CtorOk d =>
+      if negb (elab_ok cls d) then [2; d; 3]
       else if d =? 0 then 1 :: 0 :: map (fun _ => 0) xs ++ [0]
       else if cls =? 0 then let n := aceil_log2 d in 1 :: d :: a_trace n width (astate0 n) xs ++ [0]
       else let n := aceil_log2 (d - 1) in 1 :: d :: b_trace n width (bstate0 n) xs ++ [0]
   end.
 
 (* SPECIFICATION answer for "construct, then elaborate": every constructible depth elaborates *)
-Definition k_elab (cls depth : Z) (exact : bool) : list Z :=
-  match ctor cls depth exact with None => [0] | Some d => [1; d] end.
-(* MODEL answer (faithful to the code): [1; depth'; elaborates?] *)
-Definition k_elab_model (cls depth : Z) (exact : bool) : list Z :=
-  match ctor cls depth exact with None => [0] | Some d => [1; d; b2l (elab_ok cls d)] end.
+Definition k_elab (cls width depth : Z) (exact : bool) : list Z :=
+  match ctor cls width depth exact with
+  | CtorValueError => [0; 1] | CtorTypeError => [0; 2] | CtorOk d => [1; d] end.
+(* MODEL answer (faithful to the code): [1; depth'; 1] elaborates, [1; depth'; 0; 3] raises IndexError *)
+Definition k_elab_model (cls width depth : Z) (exact : bool) : list Z :=
+  match ctor cls width depth exact with
+  | CtorValueError => [0; 1] | CtorTypeError => [0; 2]
+  | CtorOk d => if elab_ok cls d then [1; d; 1] else [1; d; 0; 3] end.
 
 (* Gray helpers as elaborated, on w-bit values *)
 Definition k_gray (w x : Z) : list Z := [gray_enc x; gray_dec w x].
